@@ -57,7 +57,7 @@ Proof.
   - inversion Hs; subst.
     match goal with Hn : hops_spec _ _ _ _ (_ :: _) _ |- _ =>
       pose proof (hops_spec_head_carries _ _ _ _ _ _ _ Hn) as Hc' end.
-    repeat split; assumption.
+    refine (conj _ (conj _ (conj _ (conj _ _)))); assumption.
   - inversion Hs; subst.
     + inversion Hf.
     + apply IHHf. assumption.
